@@ -3149,6 +3149,305 @@ def run_ps_part(chk):
         ps_handle(chk, ps_gen_case(rng, max_size))
 
 
+# ---------------------------------------------------------------------------------------------------------------
+# wave 9: the shot / sample estimators (Model/C16Est.lean, driver part "est")
+# ---------------------------------------------------------------------------------------------------------------
+EST_REQUIRED = ["est:zero", "est:one", "est:simulate", "est:heralds", "est:stale-input", "est:converted",
+                "est:remote-built", "est:filter-unset", "est:filter-zero", "est:closed-form-compared",
+                "est:threshold-platform", "est:platform-transmittance", "est:k-equals-2", "est:k-equals-n"]
+
+
+def est_gen_case(rng, max_size):
+    size = rng.randint(2, max_size)
+    nh = min(rng.choice([0, 0, 1, 1, 2]), size - 1)
+    hm = rng.sample(range(size), nh)
+    heralds = [[k, rng.choice([0, 1, 1])] for k in hm]        # add_herald asserts expected in {0, 1}
+    free = size - nh
+    tr = rng.choice([None, None, 2, 6, 10, 50, 100])
+    # the lossy simulation drops rare terms: observed with 5 photons at 1..3 % transmittance (the all-detected term is
+    # lost, estimate_required_shots answers None where ~3e7 shots would do) — the simulation's precision, not judged
+    most = 4 if tr == 2 else 5
+    while True:
+        user = [rng.choice([0, 0, 1, 1, 1, 2]) for _ in range(free)]
+        if sum(user) + sum(v for _, v in heralds) <= most:
+            break
+    nu = sum(user)
+    r = rng.random()
+    if r < 0.15:
+        flt = None
+    elif r < 0.3:
+        flt = 0
+    elif r < 0.55:
+        flt = nu                                            # boundary: exactly the photons of the user's input
+    elif r < 0.7:
+        flt = nu + 1                                        # boundary: one more than the input holds
+    else:
+        flt = rng.randint(0, nu + 2)
+    bs = [[rng.randrange(size - 1), rng.choice([0.3, 0.7, 1.1, 1.9])] for _ in range(rng.randint(1, 3))]
+    case = {"size": size, "heralds": heralds, "user": user, "filter": flt, "bs": bs,
+            "T": tr, "threshold": rng.random() < 0.2,
+            "converted": rng.random() < 0.4, "late_herald": None,
+            "nsamples": rng.choice([1, 10, 100, 1000, 12345]), "nshots": rng.choice([0, 1, 10, 1000, 100000, 1234567])}
+    if not case["converted"] and rng.random() < 0.25:
+        rest = [k for k in range(size) if k not in hm]
+        if len(rest) > 1:
+            # a herald added AFTER with_input: the stored state does not carry its photons
+            case["late_herald"] = [rng.choice(rest), rng.choice([0, 1, 1])]
+    return case
+
+
+def est_stored(case):
+    """the state the processor stores, computed from the scenario (never read back from the processor): user photons
+    on the non-herald modes, herald photons on theirs; a converted processor has its heralds after the user's modes"""
+    size, heralds, user = case["size"], case["heralds"], case["user"]
+    if case["converted"]:
+        return list(user) + [v for _, v in heralds]
+    hd = {k: v for k, v in heralds}
+    it = iter(user)
+    return [hd[k] if k in hd else next(it) for k in range(size)]
+
+
+def est_all_heralds(case):
+    hs = [list(h) for h in case["heralds"]]
+    if case["late_herald"] is not None:
+        hs.append(list(case["late_herald"]))
+    if case["converted"]:
+        free = case["size"] - len(hs)
+        hs = [[free + i, v] for i, (_, v) in enumerate(hs)]
+    return hs
+
+
+def est_real(case):
+    """-> dict: what the real code answers (no Lean involved)"""
+    import perceval as pcvl
+    from perceval import BasicState
+    from perceval.runtime import remote_processor as rp_mod
+    from perceval.runtime.rpc_handler import RPCHandler
+    out = {}
+    quiet()
+    install_transport()
+    pf = {"commands": list(METHODS)}
+    if case["threshold"]:
+        pf["threshold_only"] = True
+    _NET[0] = FakeNet(pf)
+    if case["T"] is not None:
+        _NET[0]._details["perfs"] = {"Transmittance (%)": case["T"]}
+    handler = RPCHandler("sim:verif", "https://verif.invalid", "none", None)
+    size = case["size"]
+    try:
+        if case["converted"]:
+            p = pcvl.Processor("SLOS", size)
+            for k, th in case["bs"]:
+                p.add(k, pcvl.BS(theta=th))
+            for k, v in case["heralds"]:
+                p.add_herald(k, v)
+            if case["filter"] is not None:
+                p.min_detected_photons_filter(case["filter"])
+            p.with_input(BasicState(case["user"]))
+            rp = pcvl.RemoteProcessor.from_local_processor(p, rpc_handler=handler)
+        else:
+            rp = pcvl.RemoteProcessor(rpc_handler=handler, m=size)
+            for k, th in case["bs"]:
+                rp.add(k, pcvl.BS(theta=th))
+            for k, v in case["heralds"]:
+                rp.add_herald(k, v)
+            if case["filter"] is not None:
+                rp.min_detected_photons_filter(case["filter"])
+            rp.with_input(BasicState(case["user"]))
+            if case["late_herald"] is not None:
+                rp.add_herald(*case["late_herald"])
+    except Exception as e:
+        out["build_err"] = f"{type(e).__name__}: {e}"
+        return out
+    # did the estimate simulate?  (a recording subclass of the local Processor the estimator builds: same behaviour)
+    runs = []
+    real_proc = rp_mod.Processor
+
+    class Recording(real_proc):
+        def probs(self, *a, **kw):
+            runs.append(1)
+            return super().probs(*a, **kw)
+    rp_mod.Processor = Recording
+    try:
+        for key, fn, arg in (("required", rp.estimate_required_shots, case["nsamples"]),
+                             ("expected", rp.estimate_expected_samples, case["nshots"])):
+            before = len(runs)
+            try:
+                v = fn(arg)
+                out[key] = None if v is None else (int(v) if float(v) == int(v) else float(v))
+            except Exception as e:
+                out[key] = {"exc": type(e).__name__, "msg": str(e)[:200]}
+            out[key + "_simulated"] = len(runs) > before
+    finally:
+        rp_mod.Processor = real_proc
+    return out
+
+
+def est_closed_form(case, k):
+    """exact probability that at least k of the n stored photons are detected given that at least one is, each photon
+    surviving independently with the platform's transmittance (photon-counting detectors, unitary circuit)"""
+    from fractions import Fraction
+    from math import comb
+    t = Fraction(6, 100) if case["T"] is None else Fraction(case["T"], 100)
+    n = sum(est_stored(case))
+    tail = sum(comb(n, j) * t ** j * (1 - t) ** (n - j) for j in range(k, n + 1))
+    return tail / (1 - (1 - t) ** n)
+
+
+def est_request(case):
+    hs = est_all_heralds(case)
+    return {"part": "est", "m": case["size"] - len(hs), "size": case["size"], "heralds": hs,
+            "input": est_stored(case), "filter": case["filter"], "nsamples": case["nsamples"],
+            "nshots": case["nshots"]}
+
+
+def est_judge(chk, case):
+    """-> (real, model reply, flags, failures [(kind, sig, what)])"""
+    real = est_real(case)
+    rep = chk.lean.ask(est_request(case))
+    fl, flags = [], set()
+    if "build_err" in real:
+        flags.add("est:build-refused")
+        return real, rep, flags, fl
+    if "err" in rep:
+        fl.append(("broken", "est-model-refuses", f"the driver refuses the case: {rep['err']}"))
+        return real, rep, flags, fl
+    n = sum(est_stored(case))
+    hsum = sum(v for _, v in est_all_heralds(case))
+    k = n if case["filter"] is None else case["filter"] + hsum       # the user-level reading of the docstring
+    stale = case["late_herald"] is not None
+    desc = (f"{'converted' if case['converted'] else 'remote-built'} processor, {case['size']} modes, heralds "
+            f"{case['heralds']}{' then ' + str(case['late_herald']) + ' after with_input' if stale else ''}, input "
+            f"{case['user']}, min_detected_photons_filter {case['filter']}, transmittance {case['T']}%")
+    # ---- the direct oracle on the real code
+    req, exp = real["required"], real["expected"]
+    if isinstance(req, dict) or isinstance(exp, dict):
+        fl.append(("violation", "est-estimator-raises", f"{desc}: estimate_required_shots -> {req}, "
+                   f"estimate_expected_samples -> {exp}"))
+        return real, rep, flags, fl
+    if not (0 <= exp <= case["nshots"]):
+        fl.append(("violation", "est-samples-above-shots", f"{desc}: estimate_expected_samples({case['nshots']}) = "
+                   f"{exp}: more samples than shots (a max_samples derived from it exceeds max_shots)"))
+    unreachable = case["filter"] is not None and k > n
+    # with threshold detectors the simulated probability may be 0 for a reachable filter (two photons on one mode
+    # click once): there only "unreachable => None" is required
+    if (req is None) != unreachable and (unreachable or not case["threshold"]):
+        fl.append(("violation", "est-none-wrong", f"{desc}: the filter plus the herald photons asks for {k} photons, "
+                   f"the transmitted input holds {n}; estimate_required_shots({case['nsamples']}) = {req}"))
+    if unreachable and exp != 0:
+        fl.append(("violation", "est-none-wrong", f"{desc}: no output can pass the filter, yet "
+                   f"estimate_expected_samples({case['nshots']}) = {exp}"))
+    if not unreachable and k < 2:
+        if req != case["nsamples"] or exp != case["nshots"]:
+            fl.append(("violation", "est-estimate-wrong", f"{desc}: every shot with a detection passes the filter "
+                       f"(threshold {k}); estimate_required_shots({case['nsamples']}) = {req}, "
+                       f"estimate_expected_samples({case['nshots']}) = {exp}"))
+    if not unreachable and k >= 2 and not case["threshold"]:
+        p = est_closed_form(case, k)
+        want_e, want_r = float(case["nshots"] * p), float(case["nsamples"] / p)
+        flags.add("est:closed-form-compared")
+        if req is None or abs(exp - want_e) > 0.5 + 1e-6 * want_e or abs(req - want_r) > 0.5 + 1e-6 * want_r:
+            fl.append(("violation", "est-estimate-wrong", f"{desc}: P(at least {k} of {n} photons detected | at "
+                       f"least one) = {float(p):.9g}: expected samples {want_e:.6g} / required shots {want_r:.6g}; the "
+                       f"code answers {exp} / {req}"))
+    # ---- model vs code
+    g = rep["interest"]
+    gname = g if isinstance(g, str) else "simulate"
+    flags.add("est:" + gname)
+    want = {"zero": (None, 0), "one": (case["nsamples"], case["nshots"])}
+    if gname in want:
+        if (req, exp) != want[gname] or real["required_simulated"] or real["expected_simulated"]:
+            fl.append(("broken", "est-exit-differs", f"{desc}: model exit '{gname}' (closed answers {want[gname]}), "
+                       f"code answers {(req, exp)} (simulated: {real['required_simulated']})"))
+    else:
+        if g["simulate"] != k or not (real["required_simulated"] and real["expected_simulated"]):
+            fl.append(("broken", "est-exit-differs", f"{desc}: model simulates from {g['simulate']} photons, harness "
+                       f"reads {k}; the code simulated: {real['required_simulated']}/{real['expected_simulated']}"))
+        if rep["required"] != {"simulated": g["simulate"]} or rep["expected"] != {"simulated": g["simulate"]}:
+            fl.append(("broken", "est-model-inconsistent", f"driver reply {json.dumps(rep)}"))
+        if k == 2:
+            flags.add("est:k-equals-2")
+        if k == n:
+            flags.add("est:k-equals-n")
+    if hsum > 0:
+        flags.add("est:heralds")
+    if stale:
+        flags.add("est:stale-input")
+    flags.add("est:converted" if case["converted"] else "est:remote-built")
+    if case["filter"] is None:
+        flags.add("est:filter-unset")
+    if case["filter"] == 0:
+        flags.add("est:filter-zero")
+    if case["threshold"] and gname == "simulate":
+        flags.add("est:threshold-platform")
+    if case["T"] is not None:
+        flags.add("est:platform-transmittance")
+    return real, rep, flags, fl
+
+
+def est_shrink(chk, case, sig):
+    def fails(c):
+        try:
+            return any(f[1] == sig for f in est_judge(chk, c)[3])
+        except Exception:
+            return False
+    cur = copy.deepcopy(case)
+    for _ in range(30):
+        cands = []
+        if cur["late_herald"] is not None:
+            cands.append(dict(cur, late_herald=None))
+        if cur["converted"]:
+            cands.append(dict(cur, converted=False))
+        if cur["threshold"]:
+            cands.append(dict(cur, threshold=False))
+        if cur["T"] is not None:
+            cands.append(dict(cur, T=None))
+        if len(cur["bs"]) > 1:
+            cands.append(dict(cur, bs=cur["bs"][:1]))
+        for i, (k, v) in enumerate(cur["heralds"]):
+            if v > 0:
+                cands.append(dict(cur, heralds=cur["heralds"][:i] + [[k, v - 1]] + cur["heralds"][i + 1:]))
+        for i, v in enumerate(cur["user"]):
+            if v > 0:
+                cands.append(dict(cur, user=cur["user"][:i] + [v - 1] + cur["user"][i + 1:]))
+        if cur["filter"]:
+            cands.append(dict(cur, filter=cur["filter"] - 1))
+        for c in cands:
+            if fails(c):
+                cur = copy.deepcopy(c)
+                break
+        else:
+            break
+    return cur
+
+
+def est_handle(chk, case, do_shrink=True):
+    real, rep, flags, fl = est_judge(chk, case)
+    for f in flags:
+        chk.branch(f)
+    chk.count("est:size", case["size"])
+    chk.count("est:exit", rep.get("interest") if isinstance(rep.get("interest"), str) else "simulate")
+    chk.case(("est", json.dumps(case, sort_keys=True)), "build_err" not in real, None)
+    seen = set()
+    for kind, sig, what in fl:
+        if sig in seen:
+            continue
+        seen.add(sig)
+        already = sum(1 for f in chk.failures if f[1] == sig)
+        if already >= 3:
+            continue
+        small = est_shrink(chk, case, sig) if do_shrink and already == 0 else case
+        chk.fail(kind, sig, what, {"est_case": small})
+
+
+def run_est_part(chk):
+    rng = chk.rng
+    n = chk.pick(150, 1200)
+    max_size = chk.pick(5, 6)
+    for _ in range(n):
+        est_handle(chk, est_gen_case(rng, max_size))
+
+
 def load_corpus():
     out = []
     for p in sorted(glob.glob(os.path.join(core.VERIF, "corpus", "C16", "*.json"))):
@@ -3271,7 +3570,7 @@ def run(chk: core.Check):
                              "cleared", "cleared:no-modes", "cleared-then-add", "cleared-then-set-circuit",
                              "clear-refused-size", "clear-between-payloads", "set-parameters",
                              "set-parameters-refused", "thresholded-set", "thresholded-refused",
-                             "payload-parameters-compared"] + PS_REQUIRED
+                             "payload-parameters-compared"] + PS_REQUIRED + EST_REQUIRED
     chk.lean = core.LeanDriver("C16")
     for scen in load_corpus():
         handle(chk, scen, corpus=True)
@@ -3300,6 +3599,10 @@ def run(chk: core.Check):
     for case in load_part_corpus("ps_case"):
         ps_handle(chk, case)
     run_ps_part(chk)
+    # the shot / sample estimators (wave 9; drawn last: the earlier parts of a seed stay what they were)
+    for case in load_part_corpus("est_case"):
+        est_handle(chk, case)
+    run_est_part(chk)
     if chk.branches.get("discarded", 0) > 0.03 * n:
         raise RuntimeError(f"{chk.branches['discarded']} of {n} generated scenarios were discarded (generator out of "
                            f"its valid domain)")
@@ -3310,5 +3613,8 @@ def replay(chk, data):
     chk.rule = "replay of one stored scenario"
     if "ps_case" in data["replay"]:
         ps_handle(chk, data["replay"]["ps_case"], do_shrink=False)
+        return
+    if "est_case" in data["replay"]:
+        est_handle(chk, data["replay"]["est_case"], do_shrink=False)
         return
     handle(chk, data["replay"]["scenario"], do_shrink=False)
